@@ -416,3 +416,49 @@ Theorem atom_rbrace_refuted :
     parse_astring default_sparams [] (v ++ [SP]) = PFail /\
     parse_astring default_sparams [] (print_quoted v ++ [SP]) = POk (v, print_quoted v) [SP] [].
 Proof. exists [RBRACE]. split; [discriminate|]. vm_compute. repeat split. Qed.
+
+(* ------------------------------------ the same for any atom class *)
+Lemma parse_astring_cstring : parse_astring = parse_cstring astring_char.
+Proof. reflexivity. Qed.
+
+Theorem cstring_spelling cls p sp v k rest cs :
+  cls SP = false -> cls DQUOTE = false -> cls LBRACE = false ->
+  spelling_okc cls p sp v = true ->
+  (sp = SpAtom -> head_sat cls rest = false) ->
+  parse_cstring cls p (spell_conts sp v rest cs) (repeat SP k ++ spell_buf sp v rest)
+  = POk (v, spell_raw sp v) rest cs.
+Proof.
+  intros Hsp Hdq Hlb Hok Hrest. unfold parse_cstring.
+  destruct sp; cbn [spelling_okc] in Hok; cbn [spell_buf spell_conts spell_raw spell_line].
+  - unfold is_class_atom in Hok. destruct v as [|c v']; [discriminate|].
+    rewrite parse_class_print; auto. discriminate.
+  - rewrite parse_class_none_head.
+    2:{ rewrite skip_spaces_repeat. unfold print_quoted. cbn [app].
+        rewrite skip_spaces_nonspace by discriminate. exact Hdq. }
+    exact (string_spelling p SpQuoted v k rest cs ltac:(discriminate) Hok).
+  - rewrite parse_class_none_head.
+    2:{ rewrite skip_spaces_repeat. unfold lit_prefix. cbn [app].
+        rewrite skip_spaces_nonspace by discriminate. exact Hlb. }
+    exact (string_spelling p SpLit v k rest cs ltac:(discriminate) Hok).
+  - rewrite parse_class_none_head.
+    2:{ rewrite skip_spaces_repeat. unfold lit_plus_prefix. cbn [app].
+        rewrite skip_spaces_nonspace by discriminate. exact Hlb. }
+    exact (string_spelling p SpLitPlus v k rest cs ltac:(discriminate) Hok).
+Qed.
+
+Theorem cstring_lit_needs_cont cls p v k :
+  cls SP = false -> cls DQUOTE = false -> cls LBRACE = false ->
+  spelling_ok p SpLit v = true ->
+  parse_cstring cls p [] (repeat SP k ++ spell_line SpLit v) = PNeed (blen v).
+Proof.
+  intros Hsp Hdq Hlb Hok. cbn [spelling_ok] in Hok. apply andb_true_iff in Hok as [Hb Hc].
+  apply negb_true_iff in Hb. unfold parse_cstring. cbn [spell_line].
+  destruct (lit_prefix_head false (blen v)) as (c & r & Er & Hs & Hac & Hq).
+  rewrite parse_class_none_head.
+  2:{ rewrite skip_spaces_repeat. unfold lit_prefix. cbn [app].
+      rewrite skip_spaces_nonspace by discriminate. exact Hlb. }
+  unfold parse_string. rewrite parse_quoted_none_head.
+  2:{ rewrite skip_spaces_repeat. rewrite Er. rewrite skip_spaces_nonspace by exact Hs.
+      cbn [head_sat]. apply N.eqb_neq. exact Hq. }
+  rewrite literal_sync_need by assumption. reflexivity.
+Qed.
